@@ -10,9 +10,8 @@ RULE = ("correspondence: Aggregate / AggregateVerify / FastAggregateVerify / _Ag
         "of size 1..n, repeated keys, repeated messages, permutations and regroupings, every single-element perturbation of "
         "(keys, messages, aggregate), length mismatches, empty inputs; predicates: Aggregate == encoding of the oracle's group sum, order and "
         "grouping independence, accept iff the supplied signature equals the sum and the suite preconditions hold")
-HYPOTHESES = ["HB1_bilinear_blsOpt", "HB2_card_blsE1/E2", "HT5_codecG2"]
-NOT_YET_PROVED = ["aggregateVerify_iff / fastAggregateVerify_iff for all inputs: conditional on HB1/HB2 (sampled); "
-                  "aggregate error behaviour and precondition gates are unconditional theorems (C03_Logic)"]
+HYPOTHESES = ["PairingFacts' (C01_ProtoHB2): HB1 = additivity of the reduced pairing in each argument on r-torsion points (needs divisors / Weil reciprocity; not in Mathlib); ND = non-degeneracy against the generator (r.Q = 0 -> e(Q, g1) = 1 -> Q = 0); HB1' = the model's Miller loop + final exponentiation compute e. HB2 (group orders) and HT6 (hash_to_G2 lands in the subgroup, never raises) are PROVED and no longer assumed"]
+NOT_YET_PROVED = ["the three fields of PairingFacts' themselves (Aggregate = group sum, order/grouping independence, error behaviour are unconditional theorems)"]
 ASSUMPTIONS = ["FastAggregateVerify returns False when the AGGREGATE public key is the identity (IETF-mandated KeyValidate of the aggregate)"]
 nontrivial = nontrivial_default
 CHUNK = 2
